@@ -41,6 +41,44 @@ fn ack(file: &Path, v: Value) {
     let _ = writeln!(f, "{v}");
 }
 
+/// `<op>+sess`: after the op's first frame is in the log and BEFORE the first cache effect of that
+/// frame (the creation of the family's `.dirty` marker), ANOTHER run logs its session frames
+/// (started / output / ended + snapshot) - what a concurrent run of the same authority does.
+/// The moment is found through the shim's callback (called before every file-system call on a
+/// store path); every file-system call of both runs stays a crash point.
+static INJECT_ARMED: std::sync::atomic::AtomicBool = std::sync::atomic::AtomicBool::new(false);
+static INJECT_CTX: std::sync::OnceLock<(Arc<ripd::SessionEngine>, Arc<tokio::runtime::Runtime>)> = std::sync::OnceLock::new();
+
+extern "C" fn inject_callback(_op: *const std::os::raw::c_char, path: *const std::os::raw::c_char) {
+    if path.is_null() || !INJECT_ARMED.load(std::sync::atomic::Ordering::SeqCst) {
+        return;
+    }
+    let p = unsafe { std::ffi::CStr::from_ptr(path) }.to_string_lossy();
+    if !p.ends_with(".dirty") || !INJECT_ARMED.swap(false, std::sync::atomic::Ordering::SeqCst) {
+        return;
+    }
+    if let Some((engine, rt)) = INJECT_CTX.get() {
+        let engine = engine.clone();
+        let rt = rt.clone();
+        let t = std::thread::spawn(move || {
+            let handle = engine.create_session();
+            rt.block_on(engine.verif_session_future(handle, "concurrent run".into(), None, None));
+        });
+        let _ = t.join();
+    }
+}
+
+fn install_inject_callback() {
+    unsafe {
+        let sym = libc::dlsym(libc::RTLD_DEFAULT, c"ripv_set_fs_callback".as_ptr());
+        if sym.is_null() {
+            machinery_failure("c05 worker: the shim is not loaded (ripv_set_fs_callback not found)");
+        }
+        let set: extern "C" fn(extern "C" fn(*const std::os::raw::c_char, *const std::os::raw::c_char)) = std::mem::transmute(sym);
+        set(inject_callback);
+    }
+}
+
 pub fn worker(args: &[String]) -> i32 {
     let get = |k: &str| args.iter().find_map(|a| a.strip_prefix(&format!("{k}=")).map(|s| s.to_string()));
     let dir = PathBuf::from(get("dir").expect("dir"));
@@ -50,11 +88,15 @@ pub fn worker(args: &[String]) -> i32 {
     let root = dir.join("ws");
     std::fs::create_dir_all(&root).expect("root");
     let rt = crate::fixture::new_rt();
-    let engine = {
+    let mut engine = {
         let _g = rt.enter();
-        Arc::new(ripd::SessionEngine::new(data, root, None).expect("engine"))
+        Arc::new(ripd::SessionEngine::new(data.clone(), root.clone(), None).expect("engine"))
     };
-    let store = engine.continuities();
+    let mut store = engine.continuities();
+    if ops.iter().any(|o| o.ends_with("+sess")) {
+        let _ = INJECT_CTX.set((engine.clone(), rt.clone()));
+        install_inject_callback();
+    }
     let thread = match store.ensure_default() {
         Ok(t) => t,
         Err(e) => {
@@ -68,6 +110,25 @@ pub fn worker(args: &[String]) -> i32 {
     for (i, op) in ops.iter().enumerate() {
         let mut ids: Vec<String> = Vec::new();
         let mut tokens: Vec<String> = Vec::new();
+        if op == "reopen" {
+            // an orderly restart: the next append on a thread is the first of a process lifetime
+            drop(store);
+            drop(engine);
+            engine = {
+                let _g = rt.enter();
+                Arc::new(ripd::SessionEngine::new(data.clone(), root.clone(), None).expect("engine"))
+            };
+            store = engine.continuities();
+            ack(&ack_file, json!({"i": i, "ok": true, "ids": [], "tokens": []}));
+            continue;
+        }
+        let op = match op.strip_suffix("+sess") {
+            Some(base) => {
+                INJECT_ARMED.store(true, std::sync::atomic::Ordering::SeqCst);
+                base.to_string()
+            }
+            None => op.clone(),
+        };
         let res: Result<(), String> = (|| {
             match op.as_str() {
                 "msg" => {
@@ -149,10 +210,24 @@ pub fn worker(args: &[String]) -> i32 {
                     ids.push(a);
                     ids.push(b);
                 }
+                "wipe" => {
+                    // the cache directory is lost under the running authority
+                    let _ = std::fs::remove_dir_all(data.join("continuity_streams"));
+                }
+                "replay" => {
+                    // a read that rebuilds whatever cache it cannot use
+                    store.replay_events(&thread).map_err(|e| e.to_string())?;
+                }
                 other => return Err(format!("unknown op {other}")),
             }
             Ok(())
         })();
+        if INJECT_ARMED.swap(false, std::sync::atomic::Ordering::SeqCst) && res.is_ok() {
+            // the op never reached a cache effect: the history does not exercise what it claims to
+            ack(&ack_file, json!({"i": i, "ok": false, "err": "injection point not reached"}));
+            eprintln!("c05 worker: injection point not reached in {op}+sess");
+            return 3;
+        }
         ack(&ack_file, json!({"i": i, "ok": res.is_ok(), "err": res.err(), "ids": ids, "tokens": tokens}));
     }
     0
@@ -483,7 +558,7 @@ pub fn run(opts: Opts) -> i32 {
         "every history of <=2 ops (quick; thorough: <=3 over all 11 ops, <=4 over the 5 cheapest) from {message, 9 KiB message, linked stub run, \
          side effects, manual checkpoint, auto compaction, branch, handoff, cursor set, cursor rotate, selection+compiled} after an implicit \
          open+ensure_default is run by a subprocess under an LD_PRELOAD shim; for EVERY mutating file-system call k on a store path \
-         (open-create/trunc, write, pwrite, rename, unlink, mkdir, ftruncate) plus a 70 KiB message (longer than the first tail-scan window) before and after every op; the process is killed immediately before call k and the recovery \
+         (open-create/trunc, write, pwrite, rename, unlink, mkdir, ftruncate) plus a 70 KiB message (longer than the first tail-scan window) before and after every op, plus 7 histories that crash inside a cache rebuild (caches lost then read; orderly restart then first append; threads longer than the writer's buffer, with and without a foreign last frame), plus 11 histories in which another run logs its session frames between an op's log append and its cache append (<op>+sess); the process is killed immediately before call k and the recovery \
          oracle runs on what is left; a case = (history, k), all distinct",
     );
     report.assume("crash model = process death at syscall boundaries, each write(2) atomic; no power loss / reordered write-back (rip never fsyncs)");
@@ -508,6 +583,27 @@ pub fn run(opts: Opts) -> i32 {
     for op in OPS {
         hs.push(vec![op, "msg70k"]);
         hs.push(vec!["msg70k", op]);
+    }
+    // an op whose first frame is logged, then another run's session frames, then the op's cache writes
+    for op in ["msg+sess", "side+sess", "ckpt+sess", "cursor+sess", "sel+sess", "rotate+sess"] {
+        if op != "rotate+sess" {
+            hs.push(vec!["msg", op]); // (nothing to rotate without a cursor)
+        }
+        hs.push(vec!["run", "cursor", op]);
+    }
+    // crashes INSIDE a cache rebuild (a read after the caches were lost; the first append of a
+    // process lifetime), on threads longer than the writer's buffer, with and without another
+    // thread owning the log's last frame
+    for h in [
+        vec!["msg9k", "msg9k", "branch", "wipe", "replay"],
+        vec!["msg9k", "msg9k", "wipe", "replay"],
+        vec!["msg70k", "branch", "wipe", "replay"],
+        vec!["run", "ckpt", "msg9k", "branch", "wipe", "replay"],
+        vec!["msg9k", "msg9k", "branch", "reopen", "msg"],
+        vec!["msg9k", "msg9k", "reopen", "msg"],
+        vec!["run", "ckpt", "msg9k", "branch", "reopen", "side"],
+    ] {
+        hs.push(h);
     }
     report.set_extra("histories", json!(hs.len()));
     report.sample(json!({"ops": ["msg9k", "ckpt"], "crash": "before every mutating call k"}));
